@@ -73,7 +73,9 @@ def gen_case(rng):
             elif r < 0.415:
                 ops.append(["fcall", rng.choice(KINDS), "cur", rng.randint(1, 2)])   # MemorizedFunc.call: forced execution, result stored
             elif r < 0.44:
-                ops.append(["readonly", rng.random() < 0.6])                     # fault: the store refuses writes / deletions
+                ops.append(["readonly", rng.random() < 0.6])
+            elif r < 0.46:
+                ops.append(["eio"])        # fault: the next read of a recorded source fails once (EIO / ESTALE), the retry succeeds                     # fault: the store refuses writes / deletions
             else:
                 kind = rng.choice(KINDS)
                 if only_newest or not defined_here[:-1] or rng.random() < 0.6:
@@ -97,7 +99,14 @@ def gen_case(rng):
                 if rng.random() < 0.5:
                     ops.append(["call", "f", "cur", x])
         sessions.append(ops)
-    return {"sessions": sessions}
+    case = {"sessions": sessions}
+    if rng.random() < 0.15:
+        # the same definitions are also cached at a second store location by the same processes
+        for ops in sessions:
+            for op in ops:
+                if op[0] in ("call", "pcall", "fcall"):
+                    op.append(rng.choice([0, 1]))
+    return case
 
 
 def plan(tier, seed):
@@ -124,6 +133,8 @@ def session(root, ops, si=0):
         sys.path.insert(0, d)
     importlib.invalidate_caches()
     mem = Memory(os.path.join(root, "cache"), verbose=0)
+    mem_b = Memory(os.path.join(root, "cache_b"), verbose=0)
+    wrap_b = {}
     mod = None
     live = {}        # (kind, version|'cur') -> [version, cached, raw function]
     out = []
@@ -183,6 +194,17 @@ def session(root, ops, si=0):
             live[("e", op[1])] = ent
             live[("e", "cur")] = ent
             edefs.append(ns)
+        elif op[0] == "eio":
+            import joblib._store_backends as sb_, errno as _errno_
+            if not ro["on"]:
+                orig_open = sb_.FileSystemStoreBackend.__dict__["_open_item"]
+
+                def eio_open(f, mode="r", *a, _orig=orig_open, **k):
+                    if "r" in mode and str(f).endswith("func_code.py"):
+                        sb_.FileSystemStoreBackend._open_item = _orig         # one shot
+                        raise OSError(_errno_.EIO, "Input/output error", str(f))
+                    return open(f, mode, *a, **k)
+                sb_.FileSystemStoreBackend._open_item = staticmethod(eio_open)
         elif op[0] == "readonly":
             import joblib._store_backends as sb, joblib.disk as jd, types as _t, shutil as _sh, errno as _errno
             if op[1] and not ro["on"]:
@@ -219,17 +241,26 @@ def session(root, ops, si=0):
             if mod is None:
                 continue
             n0 = len(mod.CALLS) + sum(len(getattr(sys.modules.get(m), "CALLS", ())) for m in list(sys.modules) if m.startswith("vm_swap"))
+            loc = op[4] if len(op) > 4 else 0
             try:
                 fcall = ent[1]
+                if loc:
+                    if id(ent[2]) not in wrap_b:
+                        if ro["on"]:
+                            set_ro(False)          # (construction of a wrapper is not what the read-only fault is about)
+                        wrap_b[id(ent[2])] = (mem_b.cache(ent[2]), ent[2])
+                        if ro["on"]:
+                            set_ro(True)
+                    fcall = wrap_b[id(ent[2])][0]
                 if op[0] == "pcall":
                     import pickle
-                    fcall = pickle.loads(pickle.dumps(ent[1]))       # what dispatching the wrapper to a worker does
+                    fcall = pickle.loads(pickle.dumps(fcall))       # what dispatching the wrapper to a worker does
                 r = fcall(op[3]) if op[0] != "fcall" else fcall.call(op[3])[0]
             except BaseException as e:  # noqa
                 r = ("EXC", type(e).__name__, str(e)[:100])
             n1 = len(mod.CALLS) + sum(len(getattr(sys.modules.get(m), "CALLS", ())) for m in list(sys.modules) if m.startswith("vm_swap"))
             out.append((i, op[1], ent[0], op[3], r, n1 - n0, op[2] != "cur" and ent is not live.get((op[1], "cur")), ro["on"] or ro["ever"],
-                        op[0] == "fcall"))
+                        op[0] == "fcall", loc))
             ro["ever"] = ro["ever"] or ro["on"]
     return out
 
@@ -239,7 +270,7 @@ def run_case(case):
     h = hashlib.sha256(); hs = hashlib.sha256()
     try:
         verdict = None
-        cache = {k: {"ver": None, "keys": set()} for k in KINDS}    # model: stored version + live keys per function
+        cache = {(k, l_): {"ver": None, "keys": set()} for k in KINDS for l_ in (0, 1)}    # model: stored version + live keys per function and location
         calls_older = False
         ro_hist = [False]
         stats = {"version_changes_then_call": 0, "restarts": 0, "reloads": 0, "older_calls": 0}
@@ -250,14 +281,16 @@ def run_case(case):
                 return {"verdict": None, "harness_error": "session %d: %s %s" % (si, kind, str(res)[:500])}
             stats["restarts"] += 1 if si else 0
             stats["reloads"] += sum(1 for o in ops[1:] if o[0] == "define")
-            for (i, k, ver, x, r, executed, older, ro_seen, forced) in res:
+            for (i, k, ver, x, r, executed, older, ro_seen, forced, loc) in res:
                 ro_hist[0] = ro_hist[0] or ro_seen
                 hs.update(("%s%s%d" % (k, "o" if older else "n", executed)).encode())
                 h.update(repr((k, ver, x, r, executed)).encode())
                 if older:
                     calls_older = True; stats["older_calls"] += 1
                 # the k-th function's cache holds entries of exactly one source version
-                c = cache[k]
+                c = cache[(k, loc)]
+                if loc:
+                    stats["calls_at_second_location"] = stats.get("calls_at_second_location", 0) + 1
                 if c["ver"] != ver:
                     if c["ver"] is not None:
                         stats["version_changes_then_call"] += 1
@@ -282,9 +315,11 @@ def run_case(case):
                                "detail": "session %d op %d: %s(v%s)(%s) executed %d times, expected %d" % (si, i, k, ver, x, executed, exp_exec),
                                "sig": dict(sig, what="cache_not_kept" if executed > exp_exec else "stale_hit", kind=k)}
         return {"verdict": verdict, "digest": h.hexdigest()[:24], "shape": hs.hexdigest()[:16], "steps": sum(len(s) for s in case["sessions"]),
-                "switches": 0, "sim_time": 0.0, "faults": {"process_restart": stats["restarts"], "in_session_redefinition": stats["reloads"]},
+                "switches": 0, "sim_time": 0.0, "faults": {k_: v_ for k_, v_ in {"process_restart": stats["restarts"], "in_session_redefinition": stats["reloads"],
+                                                      "transient_read_error_on_recorded_source": sum(1 for ops_ in case["sessions"] for o_ in ops_ if o_[0] == "eio")}.items() if v_},
                 "probes": {"call_after_version_change": stats["version_changes_then_call"], "calls_of_older_definition": stats["older_calls"],
-                           "forced_executions_MemorizedFunc_call": stats.get("forced_calls", 0)},
+                           "forced_executions_MemorizedFunc_call": stats.get("forced_calls", 0),
+                           "calls_at_second_store_location": stats.get("calls_at_second_location", 0)},
                 "nontrivial": bool(stats["version_changes_then_call"]), "sample": case["sessions"][:2]}
     finally:
         shutil.rmtree(root, ignore_errors=True)
